@@ -60,7 +60,7 @@ theorem mkInitialTnew_eq (told : List ℚ) (sr : ℚ) (r : Tnew) (h : mkInitialT
     split at h
     · rename_i ha
       split at h
-      · rename_i delt _
+      · rename_i delt mm _
         injection h with h
         subst h
         refine ⟨rfl, ?_, by simp⟩
